@@ -99,6 +99,47 @@ def run(chk, repo: Repo):
     ok = not problems
     chk.add("C07-R1", f"{lm.qual}.__init__/matrix-wiring", ok, site(repo, init), "forward = M @ x, adjoint = M.T @ y of the same stored matrix",
             "matrix-backed model does not wire forward = M@x and adjoint = M.T@y of the same stored matrix: " + "; ".join(sorted(set(problems))), init)
+    # function-backed construction (`callable(forward)` true): the raw operators ARE the user's callables and no matrix is stored.  (The slot `_matrix` is
+    # also where get_matrix() later caches the parameter-to-parameter matrix, which already contains the geometries' maps: a raw operator that switches
+    # to `self._matrix` once it exists applies those maps twice.)
+    adj_p = func_params(init)[2]
+    valf = {pn(f"callable({fwd_p})"): True, pn(f"callable({adj_p})"): True, pn(f"callable({adj_p}) is not True"): False, pn(f"callable({adj_p}) is True"): True}
+    problems = []
+    supf = [r for k_, r in walk_paths(iv, valf, pn, stop_pred=is_super) if k_ == "stop"]
+    if not supf:
+        problems.append("Model.__init__ is not reached for a pair of callables")
+    for env, a_ in supf:
+        f0 = a_.value.args[0] if a_.value.args else None
+        f0 = env.get(f0.id, f0) if isinstance(f0, ast.Name) else f0
+        t0 = pn(f0) if isinstance(f0, ast.Name) else (callable_text(f0, pn) if f0 is not None else "?")
+        if t0 not in (fwd_p, f"lambda _a0:{fwd_p}(_a0)"):
+            problems.append(f"raw forward of a function-backed model is `{t0}`, not the given callable `{fwd_p}`")
+    endsf = walk_paths(iv, valf, pn)
+    for env in [r for k_, r in endsf if k_ == "fall"]:
+        a0 = env.get("self._adjoint_func")
+        t0 = pn(a0) if isinstance(a0, ast.Name) else (callable_text(a0, pn) if a0 is not None else "?")
+        if t0 not in (adj_p, f"lambda _a0:{adj_p}(_a0)"):
+            problems.append(f"raw adjoint of a function-backed model is `{t0}`, not the given callable `{adj_p}`")
+        m0 = env.get("self._matrix")
+        if m0 is None or pn(m0) != "None":
+            problems.append(f"a function-backed model starts with the stored matrix `{pn(m0) if m0 is not None else '?'}`, not None")
+    chk.add("C07-R1", f"{lm.qual}.__init__/function-wiring", not problems, site(repo, init), "raw forward / adjoint are the given callables, no stored matrix",
+            "function-backed model does not use the given callables as its raw operators: " + "; ".join(sorted(set(problems))), init)
+    # who may write the raw operator slots: the constructors only (get_matrix caches a matrix, it does not re-wire the model)
+    writers = []
+    for c_ in [repo.cls("cuqi/model/_model.py:Model")] + repo.subclasses(repo.cls("cuqi/model/_model.py:Model")):
+        for k_, nm, f_ in c_.all_functions():
+            if nm == "__init__":
+                continue
+            for n_ in ast.walk(f_):
+                if isinstance(n_, (ast.Assign, ast.AugAssign)):
+                    for t_ in (n_.targets if isinstance(n_, ast.Assign) else [n_.target]):
+                        for e_ in (t_.elts if isinstance(t_, (ast.Tuple, ast.List)) else [t_]):
+                            if path_of(e_) in ("self._forward_func", "self._adjoint_func", "self._gradient_func"):
+                                writers.append((c_, nm, n_))
+    chk.add("C07-R1", f"{lm.qual}/raw-operator-writers", not writers, site(repo, writers[0][2]) if writers else site(repo, init), "raw operator slots are written by constructors only",
+            f"{writers[0][0].name + '.' + writers[0][1] if writers else ''} re-binds a raw operator slot (`{unparse(writers[0][2])[:70] if writers else ''}`) after construction: forward / adjoint "
+            f"of the SAME model object change their meaning with its history (e.g. after get_matrix(), whose matrix already contains the geometry maps)", writers[0][2] if writers else init)
     # on every construction path (matrix or callables) the gradient slot is (direction, wrt) -> raw adjoint(direction)
     allends = walk_paths(iv, {}, pn)
     gfalls = [r for k_, r in allends if k_ == "fall"]
